@@ -193,7 +193,7 @@ def split_top(toks: List[Tok], sep: str) -> List[List[Tok]]:
     return parts
 
 
-def filter_attrs(attrs: List[List[Tok]], rep: Report, structural_ok: bool = False) -> Tuple[str, bool]:
+def filter_attrs(attrs: List[List[Tok]], rep: Report, structural_ok: bool = False, minus=()) -> Tuple[str, bool]:
     """-> (text of the attributes that are kept, had #[from])"""
     out = []
     for a in attrs:
@@ -201,7 +201,7 @@ def filter_attrs(attrs: List[List[Tok]], rep: Report, structural_ok: bool = Fals
         if name == "derive":
             inner = a[4:-2]
             names = [norm(p) for p in split_top(inner, ",") if p]
-            keep = [n for n in names if n.split("::")[-1] in KEEP_DERIVES]
+            keep = [n for n in names if n.split("::")[-1] in KEEP_DERIVES and n.split("::")[-1] not in minus]
             for n in names:
                 if n not in keep:
                     rep.drop(f"derive({n})")
@@ -967,6 +967,27 @@ def rule_loopify(toks: List[Tok], items: List[Tuple[str, int, str]], rep: Report
                   [syn("{ " + f"it_f__{tag} = Some(&it_s__{tag}[{idx}]);" + " } else { " + f"{idx} += 1;" + " }", toks[hi].pos, " "), Tok("punct", "}", toks[hi].pos, " "),
                    syn(f"it_f__{tag} " + "}", toks[hi].pos, " ")]
             rep.rule("R19 slice.iter().find(closure) -> index loop returning the first matching element")
+        elif names[-3:] == ["into_iter", "max_by_key", "unwrap_or_default"]:
+            ci = len(calls) - 3
+            recv = recv_upto(ci)
+            cp = _closure_parts(toks, calls[ci + 1][1])
+            if cp is None or not re.fullmatch(r"\w+", cp[0]):
+                raise Undecided(f"R20: unsupported closure in {fn}")
+            x, body = cp
+            if any(t.kind == "ident" and t.text in ("return", "break", "continue") for t in body) or any(is_p(t, "?") for t in body):
+                raise Undecided(f"R20: closure of .max_by_key( in {fn} contains control flow")
+            rt = render(recv).strip()
+            bt = render(body).strip()
+            # Iterator::max_by_key returns the LAST element with the maximum key (hence `>=`); None on an empty iterator, which
+            # unwrap_or_default turns into the default value -- emitted as Vec::new(), so rustc rejects the unit for any other type
+            new = [syn("({ " + f"let mut it_s__{tag} = {rt}; let mut it_b__{tag}: usize = 0; let mut {idx}: usize = 0;", first.pos, first.ws),
+                   Tok("ident", "while", first.pos, " "), syn(f"{idx} < it_s__{tag}.len()", first.pos, " "),
+                   Tok("punct", "{", first.pos, " "),
+                   syn(f"let it_k__{tag} = {{ let {x} = &it_s__{tag}[{idx}]; {bt} }}; let it_kb__{tag} = {{ let {x} = &it_s__{tag}[it_b__{tag}]; {bt} }};", first.pos, " "),
+                   _stop(syn(f"if it_k__{tag} >= it_kb__{tag} {{ it_b__{tag} = {idx}; }}", first.pos, " ")),
+                   syn(f"{idx} += 1;", toks[hi].pos, " "), Tok("punct", "}", toks[hi].pos, " "),
+                   syn(f"if it_s__{tag}.len() == 0 {{ Vec::new() }} else {{ it_s__{tag}.swap_remove(it_b__{tag}) }} " + "})", toks[hi].pos, " ")]
+            rep.rule("R20 vec.into_iter().max_by_key(closure).unwrap_or_default() -> index loop keeping the last maximum")
         else:
             raise Undecided(f"loopify: unsupported chain `{'.'.join(names)}` at .{meth}( #{k} in {fn}")
         toks = toks[:lo] + new + toks[hi + 1:]
@@ -1082,12 +1103,12 @@ class UnitBuilder:
                               "lines": [s.line(it.start), s.line(it.end)]})
 
     # -- types -----------------------------------------------------------
-    def emit_type(self, rel: str, kind: str, name: str):
+    def emit_type(self, rel: str, kind: str, name: str, minus=()):
         s = self.source(rel)
         it = s.find_type(kind, name)
         self.cut(s, it, f"{kind} {name}")
         structural_ok = not any(t.kind == "ident" and t.text in ("str", "String", "Vec", "f32", "f64", "Box", "HashMap") for t in it.toks)
-        attrs, _ = filter_attrs(it.attrs, self.rep, structural_ok)
+        attrs, _ = filter_attrs(it.attrs, self.rep, structural_ok, minus)
         toks = strip_vis(it.toks)
         froms: List[Tuple[str, Optional[str], str]] = []
         if it.body_open is not None:
